@@ -59,6 +59,13 @@ class BalancedMoveRule(BaseRule):
         ):
             return None
 
+        # A chained equation (a = b = c) has no single pair of sides to balance:
+        # the operation would be applied to a whole nested equation.
+        if isinstance(root.left, EqualExpression) or isinstance(
+            root.right, EqualExpression
+        ):
+            return None
+
         if isinstance(node.parent, MultiplyExpression) and isinstance(
             node, ConstantExpression
         ):
